@@ -231,7 +231,7 @@ func (d *structDesc) fromDefsFields(ff []defs.Field) {
 		}
 	}
 	d.maxID = maxFieldID
-	d.fieldIdx = make([]int, maxFieldID+1)
+	d.fieldIdx = make([]int, int(maxFieldID)+1) // maxFieldID+1 would wrap to 0 for id 65535
 	for i := range d.fieldIdx {
 		d.fieldIdx[i] = -1
 	}
